@@ -69,6 +69,15 @@ def quick_grids(seed=0):
       with_wavenumbers(3, 'quadratic', radius=6.371e6),          # dimensional radius (metres)
       dict(M=3, L=5, nlon=8, nlat=6, impl='fast', radius=2.0e4, base=2),
       with_wavenumbers(2, 'quadratic', radius=1e-3),
+      # TIGHT grids: the truncation sits exactly at the limit the quadrature resolves (gauss: l_max = nlat - 1; both equiangular rules:
+      # 2 l_max = nlat - 1), odd and even node counts - an error in the highest-degree exactness of the weights only shows here
+      dict(M=3, L=5, nlon=8, nlat=5),
+      dict(M=4, L=6, nlon=9, nlat=6, impl='fast', base=2),
+      dict(M=4, L=5, nlon=10, nlat=9, spacing='equiangular_with_poles'),
+      dict(M=3, L=4, nlon=8, nlat=8, spacing='equiangular_with_poles', impl='fast'),
+      dict(M=3, L=4, nlon=8, nlat=7, spacing='equiangular'),
+      dict(M=4, L=5, nlon=9, nlat=10, spacing='equiangular', impl='fast', base=1),
+      dict(M=5, L=7, nlon=12, nlat=13, spacing='equiangular_with_poles', radius=1.7),
   ]
   rng = np.random.default_rng(seed)
   M = int(rng.integers(2, 6)); L = M + int(rng.integers(0, 3))
